@@ -5,7 +5,7 @@
 From Coq Require Import ZArith Lia Bool List ZifyBool.
 From Dmd Require Import Model.Bits Model.Types Model.Fifo Model.Mem Model.Mouse Model.Duart Model.Bus Model.Decode Model.Cpu.
 From Dmd Require Import Gen.GenOpcodes Gen.GenDispatch.
-From Dmd Require Import Proofs.BitsLemmas Proofs.MemProofs Proofs.BusProofs Proofs.RegKit Proofs.SafeBus Proofs.DecodeProofs.
+From Dmd Require Import Proofs.BitsLemmas Proofs.MemProofs Proofs.BusProofs Proofs.RegKit Proofs.SafeBus Proofs.DecodeProofs Proofs.LoopTerm.
 Open Scope Z_scope.
 
 Definition W32 (x : Z) : Prop := 0 <= x < 4294967296.
@@ -22,7 +22,7 @@ Definition safe {A} (m0 : mach) (P : A -> Prop) (r : res mach A) : Prop :=
   | Ok a m => st m0 m /\ P a
   | Err _ m => st m0 m
   | Panic => False
-  | OutOfFuel => True
+  | OutOfFuel => False
   end.
 
 Lemma st_refl m : mwf m -> st m m.
@@ -317,7 +317,7 @@ Definition lsafe (r : lres) : Prop :=
   match r with
   | LDone m | LCont m | LErr _ m => st m0 m
   | LPanic => False
-  | LFuel => True
+  | LFuel => False
   end.
 
 Lemma iter_loop_safe body : (forall m, st m0 m -> lsafe (body m)) ->
@@ -330,11 +330,20 @@ Proof.
   - auto.
 Qed.
 
-Lemma run_loop_safe body m : (forall m, st m0 m -> lsafe (body m)) -> st m0 m ->
-  safe m0 (fun _ => True) (run_loop body m).
+Lemma st_R0 m : st m0 m -> 0 <= R m 0 < 4294967296.
+Proof. intros S. apply (R_range m0 m 0 S). Qed.
+
+(* a loop whose every further turn moves R0 over at least one successful bus access of stride d ends before the
+   iteration bound: the result is never OutOfFuel *)
+Lemma run_loop_safe d body m : 1 <= d <= 4 -> (forall m, st m0 m -> lsafe (body m)) ->
+  (forall m m', st m0 m -> body m = LCont m' -> exists n, 1 <= n /\ chain d (R m 0) (R m' 0) n) ->
+  st m0 m -> safe m0 (fun _ => True) (run_loop body m).
 Proof.
-  intros Hb S. unfold run_loop. pose proof (iter_loop_safe body Hb loop_fuel m S) as K.
-  destruct (iter_loop loop_fuel body m); cbn in *; auto.
+  intros Hd Hb Hp S. unfold run_loop. pose proof (iter_loop_safe body Hb loop_fuel m S) as K.
+  assert (NC : forall m', iter_loop loop_fuel body m <> LCont m').
+  { apply (loop_fuel_suffices d Hd body (st m0) st_R0); auto.
+    intros m1 m2 S1 B. split; [|apply Hp; auto]. pose proof (Hb m1 S1) as K1. rewrite B in K1. exact K1. }
+  destruct (iter_loop loop_fuel body m) as [m1|m1|e m1| |]; cbn in *; auto. exact (NC m1 eq_refl).
 Qed.
 
 Lemma lbind_safe {A} (P : A -> Prop) (r : res mach A) (k : A -> mach -> lres) :
@@ -348,8 +357,37 @@ Proof.
   eapply lbind_safe; [apply safe_wr_word; auto|]. intros _ m2 S2 _.
   cbn [lsafe]. repeat apply st_setR; auto; apply w32_W32.
 Qed.
+
+(* what bus accesses leave of the register file *)
+Lemma liftb_R {A} (f : bus -> res bus A) m a m' i : liftb f m = Ok a m' -> R m' i = R m i.
+Proof. intros H. apply liftb_ok in H. destruct H as [_ H]. now apply R_of_regs. Qed.
+
+Lemma movblw_progress m m' : st m0 m -> movblw_body m = LCont m' -> exists n, 1 <= n /\ chain 4 (R m 0) (R m' 0) n.
+Proof.
+  intros S. unfold movblw_body. destruct (R m 2 =? 0); [discriminate|].
+  destruct (rd_word (R m 0) m) as [a m1|e m1| |] eqn:E1; cbn [lbind]; try discriminate.
+  destruct (wr_word (R m1 1) a m1) as [u m2|e m2| |] eqn:E2; cbn [lbind]; try discriminate.
+  intros H. injection H as <-. exists 1. split; [lia|].
+  rewrite R_setR_other by lia. rewrite R_setR_same. rewrite R_setR_other by lia.
+  unfold wr_word in E2. rewrite (liftb_R _ m1 u m2 0 E2). unfold rd_word in E1. rewrite (liftb_R _ m a m1 0 E1).
+  unfold add32. apply chain_one; [|apply (st_R0 m S)]. eapply rd_word_mapped. exact E1.
+Qed.
+
 Lemma safe_movblw_loop m : st m0 m -> safe m0 (fun _ => True) (movblw_loop m).
-Proof. intros. apply run_loop_safe; auto. apply movblw_body_safe. Qed.
+Proof. intros. apply (run_loop_safe 4); auto; [lia | apply movblw_body_safe | apply movblw_progress]. Qed.
+
+(* MOVBLW ends with R0 a whole number of successful word reads further on *)
+Lemma movblw_loop_done m m' : st m0 m -> movblw_loop m = Ok tt m' -> exists n, 0 <= n /\ chain 4 (R m 0) (R m' 0) n.
+Proof.
+  intros S E.
+  refine (proj2 (run_loop_done 4 movblw_body (st m0) st_R0 _ _ m m' S E)).
+  - intros m1 m2 S1 B. split; [|apply movblw_progress; auto]. pose proof (movblw_body_safe m1 S1) as K. rewrite B in K. exact K.
+  - intros m1 m2 S1 B. pose proof (movblw_body_safe m1 S1) as K. rewrite B in K. split; [exact K|].
+    unfold movblw_body in B. destruct (R m1 2 =? 0).
+    + injection B as <-. exists 0. split; [lia|]. apply chain_zero. apply (st_R0 m1 S1).
+    + destruct (rd_word (R m1 0) m1) as [a m3|e m3| |]; cbn [lbind] in B; try discriminate.
+      destruct (wr_word (R m3 1) a m3) as [u m4|e m4| |]; cbn [lbind] in B; discriminate.
+Qed.
 
 Lemma strend_body_safe m : st m0 m -> lsafe (strend_body m).
 Proof.
@@ -357,8 +395,16 @@ Proof.
   eapply lbind_safe; [apply safe_rd_byte; auto; apply (R_range m0 m 0 S)|]. intros c m1 S1 Hc.
   destruct (c =? 0); cbn [lsafe]; auto. apply st_setR; auto; apply w32_W32.
 Qed.
+Lemma strend_progress m m' : st m0 m -> strend_body m = LCont m' -> exists n, 1 <= n /\ chain 1 (R m 0) (R m' 0) n.
+Proof.
+  intros S. unfold strend_body.
+  destruct (rd_byte (R m 0) m) as [c m1|e m1| |] eqn:E1; cbn [lbind]; try discriminate.
+  destruct (c =? 0); [discriminate|]. intros H. injection H as <-. exists 1. split; [lia|].
+  rewrite R_setR_same. unfold rd_byte in E1. rewrite (liftb_R _ m c m1 0 E1).
+  unfold add32. apply chain_one; [|apply (st_R0 m S)]. eapply rd_byte_mapped. exact E1.
+Qed.
 Lemma safe_strend_loop m : st m0 m -> safe m0 (fun _ => True) (strend_loop m).
-Proof. intros. apply run_loop_safe; auto. apply strend_body_safe. Qed.
+Proof. intros. apply (run_loop_safe 1); auto; [lia | apply strend_body_safe | apply strend_progress]. Qed.
 
 Lemma cs3_body_safe m : st m0 m -> lsafe (cs3_body m).
 Proof.
@@ -368,8 +414,29 @@ Proof.
   eapply lbind_safe; [apply safe_rd_word; auto; apply (R_range m0 m2 0 S2)|]. intros v2 m3 S3 Hv2.
   cbn [lsafe]. repeat apply st_setR; auto; apply w32_W32.
 Qed.
+Lemma cs3_progress m m' : st m0 m -> cs3_body m = LCont m' -> exists n, 1 <= n /\ chain 4 (R m 0) (R m' 0) n.
+Proof.
+  intros S. unfold cs3_body. destruct (R m 2 =? 0); [discriminate|].
+  pose proof (safe_rd_word m0 m (R m 0) S (proj1 (st_R0 m S))) as K1.
+  destruct (rd_word (R m 0) m) as [v m1|e m1| |] eqn:E1; cbn [lbind]; try discriminate.
+  destruct K1 as [S1 Hv].
+  set (ma := setR (setR m1 1 v) 0 (add32 (R (setR m1 1 v) 0) 4)).
+  assert (Sa : st m0 ma) by (unfold ma; repeat apply st_setR; auto; apply w32_W32).
+  destruct (movblw_loop ma) as [u m2|e m2| |] eqn:E2; cbn [lbind]; try discriminate.
+  destruct u. destruct (movblw_loop_done ma m2 Sa E2) as [n [Hn C2]].
+  pose proof (safe_movblw_loop ma Sa) as K2. rewrite E2 in K2. destruct K2 as [S2 _].
+  destruct (rd_word (R m2 0) m2) as [v2 m3|e m3| |] eqn:E3; cbn [lbind]; try discriminate.
+  intros H. injection H as <-. exists (1 + (n + 1)). split; [lia|].
+  rewrite R_setR_same. rewrite R_setR_other by lia. unfold rd_word in E3. rewrite (liftb_R _ m2 v2 m3 0 E3).
+  assert (Ea : R ma 0 = w32 (R m 0 + 4)).
+  { unfold ma. rewrite R_setR_same. rewrite R_setR_other by lia. unfold rd_word in E1. rewrite (liftb_R _ m v m1 0 E1). reflexivity. }
+  eapply chain_app.
+  - apply (chain_one 4 (R m 0)); [eapply rd_word_mapped; exact E1 | apply (st_R0 m S)].
+  - rewrite <- Ea. eapply chain_app; [exact C2|]. unfold add32.
+    apply chain_one; [eapply rd_word_mapped; unfold rd_word; exact E3 | apply (st_R0 m2 S2)].
+Qed.
 Lemma safe_cs3_loop m : st m0 m -> safe m0 (fun _ => True) (cs3_loop m).
-Proof. intros. apply run_loop_safe; auto. apply cs3_body_safe. Qed.
+Proof. intros. apply (run_loop_safe 4); auto; [lia | apply cs3_body_safe | apply cs3_progress]. Qed.
 
 (* ---- context switches ---- *)
 Ltac sbind := eapply safe_bind; [ | intros ? ? ? ? ].
